@@ -3,6 +3,7 @@ import json
 import math
 import os
 import struct
+import zlib
 
 import numpy as np
 
@@ -146,7 +147,7 @@ def validate_and_decode(path):
     return info
 
 
-def check_written(path, df, opts, res, counters, scheme):
+def check_written(path, df, opts, res, counters, scheme, exp_override=None):
     """Validate every file under path and compare decoded content with df.  Returns number of pages decoded."""
     from vf.ref import reader as R
     import pandas as pd
@@ -193,7 +194,9 @@ def check_written(path, df, opts, res, counters, scheme):
         return pages
     exp = df
     wi = opts.get("write_index")
-    if wi is True or (wi is None and not isinstance(df.index, pd.RangeIndex)):
+    if exp_override is not None:
+        exp = exp_override
+    elif wi is True or (wi is None and not isinstance(df.index, pd.RangeIndex)):
         exp = df.reset_index()
     cols = {".".join(k): v for k, v in top.columns.items()}
     if top.num_rows != len(exp):
@@ -233,6 +236,41 @@ def check_written(path, df, opts, res, counters, scheme):
     return pages
 
 
+def history_steps(path, df, opts, res, counters, scheme):
+    """The files of a dataset with a history - two appends through one kept handle, then (multi-file) the first row group removed -
+    validated and decoded like a fresh write."""
+    import pandas as pd
+    import fastparquet
+    from fastparquet.writer import reset_row_idx
+    wi = opts.get("write_index")
+    exp1 = df.reset_index() if (wi is True or (wi is None and not isinstance(df.index, pd.RangeIndex))) else df
+    pages = 0
+    try:
+        pf = fastparquet.ParquetFile(path)
+        for k_ in range(2):
+            pf.write_row_groups(reset_row_idx(df) if pf._get_index() else df, row_group_offsets=[0, max(1, len(df) // 2)] if len(df) > 1 and k_ else None,
+                                compression=opts.get("compression"))
+    except Exception:
+        counters["history_append_refused"] = counters.get("history_append_refused", 0) + 1
+        return 0
+    n0 = len(res["failures"])
+    exp = pd.concat([exp1, exp1, exp1], ignore_index=True)
+    pages += check_written(path, df, opts, res, counters, scheme, exp_override=exp)
+    counters["histories_validated"] = counters.get("histories_validated", 0) + 1
+    if scheme != "simple" and len(pf.row_groups) >= 2 and len(res["failures"]) == n0:
+        k = pf.row_groups[0].num_rows
+        try:
+            pf.remove_row_groups(pf.row_groups[0])
+        except Exception:
+            counters["history_remove_refused"] = counters.get("history_remove_refused", 0) + 1
+        else:
+            pages += check_written(path, df, opts, res, counters, scheme, exp_override=exp.iloc[k:].reset_index(drop=True))
+            counters["histories_with_removal_validated"] = counters.get("histories_with_removal_validated", 0) + 1
+    for f in res["failures"][n0:]:
+        f["after_history"] = True
+    return pages
+
+
 def run_case(case):
     import fastparquet
     from vf.props import common as C
@@ -251,6 +289,8 @@ def run_case(case):
                 counters["write_rejected"] = 1
                 return res
         pages = check_written(path, df, opts, res, counters, scheme)
+        if zlib.crc32(case["id"].encode()) % 3 == 0 and not res["failures"]:
+            pages += history_steps(path, df, opts, res, counters, scheme)
         ctx = {"dpv": case.get("dpv"), "page_size": case.get("page_size"), "scheme": scheme, "compression": c01.codec_class(opts.get("compression")),
                "has_nulls": opts.get("has_nulls") if not isinstance(opts.get("has_nulls"), list) else "list", "times": opts.get("times", "int64"),
                "kinds": sorted({c["kind"] for c in case["frame"]["cols"]})}
@@ -268,4 +308,4 @@ def run_case(case):
 
 def required(tier):
     return {"validated_pages": 3000, "validated_chunks": 1500, "validated_dict_pages": 100, "validated_v2_pages": 500, "validated_footers": 800,
-            "columns_compared": 1000}
+            "columns_compared": 1000, "histories_validated": 150, "histories_with_removal_validated": 10}
